@@ -703,7 +703,7 @@ const refRule = "1-4 generated contracts (CALL/DELEGATECALL/CALLCODE/STATICCALL 
 func TestC02_Reference(t *testing.T) {
 	st := ev.New("C02", "TestC02_Reference", refRule+"; compared: bank balance of every involved account (signer modulo fee), total supply change")
 	runCorpus(t, st)
-	runRapid(t, st, 300, 20000, func(rt *rapid.T) {
+	runRapid(t, st, 1200, 30000, func(rt *rapid.T) {
 		if msg := runRefFor("C02", st, genRefCase(rt)); msg != "" {
 			rt.Fatalf("%s", msg)
 		}
@@ -713,7 +713,7 @@ func TestC02_Reference(t *testing.T) {
 func TestC05_Reference(t *testing.T) {
 	st := ev.New("C05", "TestC05_Reference", refRule+"; compared: success/failure, contract storage, code after self-destruct, logs")
 	runCorpus(t, st)
-	runRapid(t, st, 300, 20000, func(rt *rapid.T) {
+	runRapid(t, st, 1200, 30000, func(rt *rapid.T) {
 		if msg := runRefFor("C05", st, genRefCase(rt)); msg != "" {
 			rt.Fatalf("%s", msg)
 		}
